@@ -370,6 +370,20 @@ pub(crate) fn muladd(a: &Scalar, b: &Scalar, c: &Scalar) -> Scalar {
     r
 }
 
+/// Verification hooks (64-bit backend only), compiled only with `--cfg cryptoxide_verif`.
+#[cfg(cryptoxide_verif)]
+pub mod verif64 {
+    use super::Scalar;
+    /// wrapper of the private `add`
+    pub fn add(a: &Scalar, b: &Scalar) -> Scalar {
+        super::add(a, b)
+    }
+    /// wrapper of the private `mul`
+    pub fn mul(a: &Scalar, b: &Scalar) -> Scalar {
+        super::mul(a, b)
+    }
+}
+
 #[cfg(test)]
 mod tests {
     use super::*;
